@@ -727,3 +727,30 @@ Section MatmulRec.
                 end
     end.
 End MatmulRec.
+
+(* ---------------------------------------------------------------------- _dot, COO @ COO: COO -> CSR row pointers *)
+(*   a_indptr = np.empty(a.shape[0] + 1, dtype=D); a_indptr[0] = 0
+     np.cumsum(np.bincount(a.coords[0], minlength=a.shape[0]), out=a_indptr[1:])
+   The pointers are cumulative COUNTS of stored elements; writing into `out` casts to D.  D comes from the source
+   (Gen/S_dot.v, s_coo_indptr_dtype_a/b): 0 = np.intp (wide: no wrap in the model), 1 = the operand's coordinate
+   dtype, of `bits` bits, signed or not (the cast wraps). *)
+Definition wrap_int (bits : Z) (signed : bool) (z : Z) : Z :=
+  let m := 2 ^ bits in
+  let r := z mod m in
+  if signed && (2 ^ (bits - 1) <=? r) then r - m else r.
+
+Definition bincount (rows : list Z) (n_row : Z) : list Z :=
+  map (fun r => Z.of_nat (length (filter (Z.eqb r) rows))) (zrange n_row).
+
+Fixpoint cumsum (acc : Z) (l : list Z) : list Z :=
+  match l with [] => [] | x :: r => (acc + x) :: cumsum (acc + x) r end.
+
+Definition coo_csr_indptr (dtype_code bits : Z) (signed : bool) (rows : list Z) (n_row : Z) : list Z :=
+  let store := if dtype_code =? 1 then wrap_int bits signed else (fun z => z) in
+  store 0 :: map store (cumsum 0 (bincount rows n_row)).
+
+Definition coo_indptr_a := coo_csr_indptr s_coo_indptr_dtype_a.
+Definition coo_indptr_b := coo_csr_indptr s_coo_indptr_dtype_b.
+
+(* every pointer / index / counter array of the product paths is allocated wide (np.intp or the platform integer) *)
+Definition dot_index_arrays_wide : bool := forallb (fun c => (c =? 0) || (c =? 3)) s_dot_index_allocs.
